@@ -257,6 +257,71 @@ fn scaled_family_space(ctx: &Ctx, sizes: &[usize]) {
     );
 }
 
+/// systems at the edge of the f64 range: A and b scaled independently by 1e-200 .. 1e200, so that steps alpha*p underflow to
+/// nothing or overflow to inf while the recurrence residual still "converges"
+fn edge_of_range_space(ctx: &Ctx) {
+    let sas = [1e200, 1e100, 1.0, 1e-100, 1e-156, 1e-200];
+    let sbs = [1e-150, 1e-119, 1e-100, 1.0, 1e100, 1e150, 1.7e308];
+    let mut cases = vec![];
+    for n in 1..=3usize {
+        for kind in 0..2usize {
+            for ia in 0..sas.len() {
+                for ib in 0..sbs.len() {
+                    cases.push((n, kind, ia, ib));
+                }
+            }
+        }
+    }
+    ctx.lattice(
+        "edge of the f64 range: tridiag(-1,2,-1) and diag(1..n) of order 1..3, A scaled by 1e200..1e-200, b by 1e-150..1.7e308, two right-hand-side shapes, tol 1e-8 and 1e-10, budget 8, 5 solvers",
+        cases.len() as u64,
+        |i| format!("{:?}", cases[i as usize]),
+        |i, acc| {
+            let (n, kind, ia, ib) = cases[i as usize];
+            let mut d = vec![vec![0.0f64; n]; n];
+            for k in 0..n {
+                if kind == 0 {
+                    d[k][k] = 2.0 * sas[ia];
+                    if k + 1 < n {
+                        d[k][k + 1] = -sas[ia];
+                        d[k + 1][k] = -sas[ia];
+                    }
+                } else {
+                    d[k][k] = (k + 1) as f64 * sas[ia];
+                }
+            }
+            let a = sparse_of(&d, 0);
+            let j = Judge { d: &d, a: &a, anorm: norm_inf_mat(&d) };
+            acc.hit("edge-of-range systems");
+            let bs: Vec<Vec<f64>> = vec![vec![sbs[ib]; n], (0..n).map(|k| d[k][k] * sbs[ib].min(1e300 / sas[ia].max(1.0))).collect()];
+            for b in bs.iter() {
+                if b.iter().any(|v| !v.is_finite()) {
+                    continue;
+                }
+                for &tol in [1e-8, 1e-10].iter() {
+                    for &s in SOLVERS.iter() {
+                        let x0 = vec![0.0; n];
+                        let key = || format!("{:?} edge A={:?} b={:?} x0=0 tol={:e} budget=8", s, d, b, tol);
+                        let mut local = Acc::new("t");
+                        let res = catch(|| j.run(s, b, &x0, 8, tol, &mut local));
+                        for (k, v) in std::mem::take(&mut local.hits) {
+                            *acc.hits.entry(k).or_insert(0) += v;
+                        }
+                        if local.nontrivial > 0 {
+                            acc.nontriv("configurations with an Ok answer");
+                        }
+                        match res {
+                            Ok(Ok(())) => {}
+                            Ok(Err(e)) => acc.fail(i, key(), e),
+                            Err(p) => acc.fail(i, key(), format!("unexpected panic: {}", p)),
+                        }
+                    }
+                }
+            }
+        },
+    );
+}
+
 fn main() {
     let ctx = Ctx::from_args("C08");
     ctx.level("exploration");
@@ -369,6 +434,7 @@ fn main() {
             },
         );
     }
+    edge_of_range_space(&ctx);
     scaled_family_space(&ctx, if ctx.quick() { &[2, 3, 5, 8, 13, 21] } else { &[2, 3, 4, 5, 6, 8, 10, 13, 16, 21, 27, 34, 47, 60] });
     if ctx.quick() {
         benign_space(&ctx, &[1, 2, 3, 5, 8, 13, 16, 21, 24, 32, 34, 40, 60]);
